@@ -449,15 +449,8 @@ def check(model, rep, tier):
 
   # ---------------------------------------------------------------- IFACE-SELF
   cc = model.func(API, 'converted_call')
-  ok = False
-  for n in ast.walk(cc.node):
-    if isinstance(n, ast.If) and core.norm(n.test) == 'f_self is not None':
-      ok = any(core.norm(s) == 'effective_args = (f_self,) + effective_args'
-               for s in n.body)
-  rep.check(ok, 'IFACE-SELF', '%s:instance-first' % cc.site,
-            'a bound method converts to a function taking the instance first: '
-            'the instance must be prepended whenever it is not None',
-            line=cc.node.lineno, witness='method of a falsy object (empty container)')
+  from sa.props import C13 as _c13
+  _c13.check_effective_args(rep, cc, 'IFACE-SELF', 'instance-first')
 
   # ---------------------------------------------------------------- dependencies
   rep.depends('C13', ['CALL-FAITHFUL', 'CALL-FALLBACK', 'CALL-PARTIAL'],
